@@ -12,6 +12,21 @@ var exprsC13scope = []string{
 	`any l as x { any m as x, v { v == 1 } } or s == "a"`, `(any ts as s { s == 1 }) or s matches "a"`, `not (any l as n { n == "x" }) and n == 1`,
 }
 
+// rootWrites counts the monitored writes that hit the monitored roots (here:
+// the datum); writes to package globals are C12's subject, not C13's.
+func rootWrites(w []string) int {
+	n := 0
+	for _, x := range w {
+		for i := 0; i+4 <= len(x); i++ {
+			if x[i:i+4] == "root" {
+				n++
+				break
+			}
+		}
+	}
+	return n
+}
+
 func H_C13_history() {
 	ne := len(exprsC12)
 	ei := vChoose(ne + len(exprsC13scope))
@@ -44,7 +59,7 @@ func H_C13_history() {
 		vMonitorStart(d)
 		o, _, _ := evalO(ev, d)
 		w := vMonitorStop()
-		vAssert(len(w) == 0, "monitor: Evaluate modified the datum: "+expr)
+		vAssert(rootWrites(w) == 0, "monitor: Evaluate modified the datum: "+expr)
 		if i == k-1 {
 			fresh, _ := CreateEvaluator(expr, opts...)
 			of, _, _ := evalO(fresh, d)
@@ -72,7 +87,7 @@ func H_C13_execute() {
 	vMonitorStart(data)
 	r1, e1 := f.Execute(data)
 	w := vMonitorStop()
-	vAssert(len(w) == 0, "monitor: Execute modified its input: "+expr)
+	vAssert(rootWrites(w) == 0, "monitor: Execute modified its input: "+expr)
 	for i := range in {
 		vAssert(in[i].ID == i+1, "Execute reordered or overwrote input elements: "+expr)
 	}
